@@ -386,17 +386,20 @@ func (LockMon) Check(run *hx.Run, before, after *Snap, op *Op, res string, repla
 			run.Violate("lock:duplicate-key-row", fmt.Sprintf("key %q has two rows", e.Key), replay)
 		}
 		seenKey[e.Key] = true
+		if b := findKV(before, e.Key); b != nil && b.Session == e.Session && findSession(before, e.Session) == nil {
+			continue // already reported when it was introduced
+		}
 		if e.Session != "" && findSession(after, e.Session) == nil {
 			run.Violate("lock:held-by-missing-session:"+name, fmt.Sprintf("after %s key %q is locked by session %q which does not exist", name, e.Key, e.Session), replay)
 		}
 	}
 	for _, m := range after.T.SessionChecks {
-		if findSession(after, m.Session) == nil {
+		if findSession(after, m.Session) == nil && findSession(before, m.Session) != nil {
 			run.Violate("lock:check-link-of-missing-session:"+name, fmt.Sprintf("session_checks row (%s,%s) names missing session %q", m.Node, m.CheckID, m.Session), replay)
 		}
 	}
 	for _, q := range after.T.Queries {
-		if q.Session != "" && findSession(after, q.Session) == nil {
+		if q.Session != "" && findSession(after, q.Session) == nil && findSession(before, q.Session) != nil {
 			run.Violate("lock:query-of-missing-session:"+name, fmt.Sprintf("prepared query %s names missing session %q", q.ID, q.Session), replay)
 		}
 	}
@@ -483,7 +486,7 @@ func (LockMon) Check(run *hx.Run, before, after *Snap, op *Op, res string, repla
 		return nil
 	}
 	for _, x := range after.T.Sessions {
-		if !nodeExists(after, x.Node) {
+		if !nodeExists(after, x.Node) && (nodeExists(before, x.Node) || findSession(before, x.ID) == nil) {
 			run.Violate("lock:session-outlived-node:"+name, fmt.Sprintf("session %s is bound to node %q which is gone", x.ID, x.Node), replay)
 		}
 	}
